@@ -496,6 +496,24 @@ func (e *Ev) callStatic(fn *types.Func, recv *Term, args []Term, n *ast.CallExpr
 		}
 	}
 done:
+	// well-formedness facts about slice values met while evaluating the callee's clauses (recorded
+	// in the callee-view states) hold in the caller's state as well
+	for _, vs := range []*State{postView, pre} {
+		for _, f := range vs.pc {
+			if strings.HasPrefix(f, "(and (<= 0 (slen ") || strings.HasPrefix(f, "(forall (") && strings.Contains(f, "(and (<= 0 (slen ") {
+				dup := false
+				for _, h := range e.st.pc {
+					if h == f {
+						dup = true
+						break
+					}
+				}
+				if !dup {
+					e.st.assume(f)
+				}
+			}
+		}
+	}
 	// convert results back to caller mode
 	for i := range results {
 		rt := results[i].T
